@@ -652,7 +652,9 @@ class SAMIParser(HTMLParser):
         self.line = ''
         self.styles = {}
         self.queue = deque()
-        self.langs = set()
+        # languages in order of first appearance (a dict used as an ordered
+        # set: set order depends on the interpreter's hash seed)
+        self.langs = {}
         self.last_element = ''
         self.name2codepoint = name2codepoint.copy()
         self.name2codepoint['apos'] = 0x0027
@@ -677,7 +679,7 @@ class SAMIParser(HTMLParser):
             # if no language detected, set it as the default
             lang = lang or DEFAULT_LANGUAGE_CODE
             attrs.append(('lang', lang))
-            self.langs.add(lang)
+            self.langs[lang] = None
 
         # clean-up line breaks
         if tag == 'br':
@@ -739,7 +741,7 @@ class SAMIParser(HTMLParser):
     def feed(self, data):
         """
         :param data: Raw SAMI unicode string
-        :returns: tuple (str, dict, set)
+        :returns: tuple (str, dict, list)
         """
         no_cc = 'no closed captioning available'
 
@@ -770,7 +772,7 @@ class SAMIParser(HTMLParser):
             closing_tag = self.queue.pop()
             self.sami += f"</{closing_tag}>"
 
-        return self.sami, self.styles, self.langs
+        return self.sami, self.styles, list(self.langs)
 
     # parse the SAMI's stylesheet
     def _css_parse(self, css):
